@@ -3,6 +3,8 @@ CONSTANTS
   N = 64
   GroupNames <- GN
   Groups <- G64
+  Obj <- ObjF
+  HasCancel = TRUE
   CondSizes = {1, 4, 8, 9, 16, 17, 33, 120}
   SeqSizes = {1, 2, 8, 9, 17, 64}
   MaxOps = 12
